@@ -373,3 +373,28 @@ Theorem C01_timestep_is_pipeline_with_field_total : forall g beta st sl (f : cfg
   == expect (pipeline_cfg_w (long_wf g) (update_cfg (met_update (ising_ham g) beta)) (st, sl)) f.
 Proof. exact ising_timestep_is_pipeline_w_total. Qed.
 Print Assumptions C01_timestep_is_pipeline_with_field_total.
+
+(* THE HEADLINE WITH A LONGITUDINAL FIELD (Proofs/UnconditionalFieldPipeline.v): the three per-flip conditions of
+   the weighted cluster update — asked of a space as hypotheses by C01_timestep_stationary_with_field and checked
+   there by computation on an example — are PROVED for the space of all consistent legal configurations of every
+   Ising model with a field: a flip vector of non-zero probability flips no cluster that holds a field operator
+   (its probability is 0), so every flipped operator is a two-site term (weight kept when both spins flip) or a
+   transverse term (value-independent weight); the cluster probabilities only depend on the skeleton, which a
+   flip does not change.  Hence, for every Ising model whose edges name existing spins, every h, every beta > 0
+   and every cutoff, the model's own timestep pipeline leaves the SSE weight stationary on ALL configurations. *)
+From QmcV Require Import Proofs.UnconditionalFieldPipeline.
+Theorem C01_ising_model_pipeline_stationary_with_field : forall g beta L,
+  ising_edges_ok g = true -> 0 < beta -> (0 < ising_nbonds g)%nat ->
+  forall f : cfg -> Q,
+    Qsum (map (fun x => sse_weight (ising_ham g) beta (snd x)
+                        * expect (pipeline_cfg_w (long_wf g) (update_cfg (met_update (ising_ham g) beta)) x) f)
+              (canon (ising_ham g) (all_substates (i_nvars g)) L))
+    == Qsum (map (fun x => sse_weight (ising_ham g) beta (snd x) * f x)
+                 (canon (ising_ham g) (all_substates (i_nvars g)) L)).
+Proof. exact ising_model_pipeline_stationary_with_field. Qed.
+Print Assumptions C01_ising_model_pipeline_stationary_with_field.
+
+Theorem C01_ising_table_field_terms_never_flip : forall g o, op_legal (ising_ham g) o = true ->
+  if is_edge o then edge_free (ising_ham g) o else (flip_sym (ising_ham g) o \/ long_wf g o == 0).
+Proof. exact ising_sym_ham_w. Qed.
+Print Assumptions C01_ising_table_field_terms_never_flip.
